@@ -636,7 +636,15 @@ fn scenario(r: &mut Rng, sc: u64) -> Vec<Case12> {
     out.push(Case12 { label: "hash-extended", recs: v, focus: vec![focus], ..base.clone() });
     // a recorded value that means something to other tools (pkgsrc's checksum
     // script skips "IGNORE") is, here, a hash that does not match
-    let token = *r.pick(&["IGNORE", "ignore", "NONE", "none", "SKIP", "0", "*", "-", "da39a3ee5e6b4b0d3255bfef95601890afd80709"]);
+    let lit_tokens: Vec<&'static str> = crate::corpus::literal_strs(&["distinfo", "digest"])
+        .into_iter()
+        .filter(|s| !s.is_empty() && s.len() <= 24 && s.chars().all(|c| c.is_ascii_graphic()) && !s.contains(|c| matches!(c, '(' | ')' | '=')))
+        .collect();
+    let token: &str = if !lit_tokens.is_empty() && r.chance(1, 2) {
+        lit_tokens[r.below(lit_tokens.len())]
+    } else {
+        *r.pick(&["IGNORE", "ignore", "NONE", "none", "SKIP", "0", "*", "-", "da39a3ee5e6b4b0d3255bfef95601890afd80709"])
+    };
     let v = with_main(&|m: &mut Rec| m.sums[fpos].1 = token.to_string());
     if main.sums[fpos].1 != token {
         out.push(Case12 { label: "hash-special-token", recs: v, focus: vec![focus], ..base.clone() });
